@@ -26,10 +26,10 @@ EXTRA_FLAGS = ["--verbose-graph", "--verbose-quantization", "--verbose-packing",
                "--force-symmetric-int-weights"]
 
 
-def crash_tags(spec):
+def crash_tags(spec, cfg=None):
     import constructs
 
-    return constructs.tags(spec)
+    return constructs.tags(spec, cfg)
 
 
 def classify(res, case):
@@ -43,7 +43,7 @@ def classify(res, case):
     out = res["stdout"]
     if res["exc"] is not None:
         t, msg, frame, tb = res["exc"]
-        raise Violation("C13/crash/%s@%s%s" % (t, frame, crash_tags(case["spec"])), "%s: %s" % (t, msg), case)
+        raise Violation("C13/crash/%s@%s" % (t, frame), "%s: %s" % (t, msg), case, tags=crash_tags(case["spec"], case["cfg"]))
     if "Traceback (most recent call last)" in out:
         m = re.findall(r'File "[^"]*/ethosu/([^"]+)", line \d+, in (\w+)', out)
         last = out.strip().splitlines()[-1][:200]
